@@ -41,6 +41,8 @@ type Spec struct {
 	// FirstMbox: the handler is created and prepared for this mailbox first and then pointed at Mbox through its
 	// exported MBoxPath field (one long-lived handler serving several call signs)
 	FirstMbox string `json:"first_mbox,omitempty"`
+	// Msg2 (process_inbound): a second message handed over in the same ProcessInbound call, after Msg
+	Msg2 []byte `json:"msg2,omitempty"`
 }
 
 type Result struct {
@@ -115,7 +117,14 @@ func main() {
 	case "none":
 	case "process_inbound":
 		m := parse()
-		if err := h.ProcessInbound(m); err != nil {
+		batch := []*fbb.Message{m}
+		if len(s.Msg2) > 0 {
+			m2 := new(fbb.Message)
+			if err := m2.ReadFrom(bytes.NewReader(s.Msg2)); err == nil {
+				batch = append(batch, m2)
+			}
+		}
+		if err := h.ProcessInbound(batch...); err != nil {
 			res.Err = err.Error()
 		}
 	case "add_out":
